@@ -63,6 +63,13 @@ def _direct_spec(r, kinds):
         spec["dim"] = r.choice([1, 2, 3])
     if kind == "chain":
         spec["items"] = r.choice(CHAINS)
+    if kind == "nested_chain":
+        spec["first"] = r.choice([[["Affine"]], [["Scale"]], []])
+        spec["inner"] = r.choice([[["Affine"], ["Tanh"]], [["TriAffine"], ["Affine"]], [["LeakyTanh", 3.0], ["Scale"]], [["Affine"], ["Flip"], ["Affine"]]])
+        spec["last"] = r.choice([[["Affine"]], [["TriAffine"]], []])
+        if not spec["first"] and not spec["last"]:
+            spec["last"] = [["Affine"]]
+        spec["dim"] = r.choice([2, 3])
     if kind == "container":
         spec["variant"] = r.choice(["concat", "stack", "partial", "reshape", "embed", "additive"])
         spec["dim"] = r.choice([2, 3])
@@ -193,9 +200,9 @@ def _bucket(prop, tier, seed, idx):
     if prop == "C12":
         u = r.random()
         if u < 0.45:
-            spec = _flow_spec(r, transformers=("affine", "spline", "affine_frozen_loc", "spline_frozen_derivs"))
+            spec = _flow_spec(r, transformers=("affine", "spline", "affine_frozen_loc", "affine_frozen_scale_node", "spline_frozen_derivs"))
         elif u < 0.8:
-            spec = _direct_spec(r, ["affine", "scale", "triaffine", "vspline", "planar", "chain", "scan_vspline", "container", "container"])
+            spec = _direct_spec(r, ["affine", "scale", "triaffine", "vspline", "planar", "chain", "scan_vspline", "container", "container", "nested_chain", "nested_chain", "nested_chain"])
         else:
             spec = _named_spec(r, 1e-2, 1e2)
         freeze = [{"node": r.randrange(10**6), "mode": r.choice(["NT", "fn"])} for _ in range(r.choice([0, 1, 1, 2, 3]))]
@@ -232,6 +239,17 @@ def _bucket(prop, tier, seed, idx):
     b = {"engine": "B", "prop": prop, "model": spec, "freeze": freeze, "loop": loop, "loss": loss}
     if prop == "C12":
         b["freeze_keep_some"] = r.random() < 0.65
+        if spec["kind"] in ("nested_chain", "chain") and r.random() < 0.85:
+            b["post_ops"] = [r.choice(["merge_chains", "merge_chains", "merge_chains", "merge_transforms"])]
+            if b["post_ops"] == ["merge_transforms"]:
+                spec["base"] = "normal"  # only a nested Transformed gives merge_transforms something to merge
+            if spec["kind"] == "nested_chain" and r.random() < 0.8:
+                # aim the first freeze at the inner chain (bijections[len(first)]), mostly as one wrapped node
+                b["freeze_path_hint"] = len(spec["first"])
+                if not freeze:
+                    freeze.append({"node": r.randrange(10**6), "mode": "NT"})
+                if r.random() < 0.85:
+                    freeze[0]["mode"] = "NT"
     if prop == "C18":
         b["opt"], b["lr"] = r.choice(["sgd", "adam"]), r.choice([1e-3, 1e-2])
     else:
